@@ -70,6 +70,12 @@ def run_family(chk: Check, clauses: tuple[str, ...], runtime: bool, entries: boo
     pp_traces = []
     if runtime:
         sample = [s for s in scen if len(s["features"]) == 1][:: (4 if not thorough else 1)][: (6 if not thorough else 40)]
+        # SIZE thresholds of the post-processing step (command-line length, file counts): one large document (600 schemas, > 40 000
+        # characters of generated paths) in an embedded (thorough: and a sibling-core) layout
+        big = features.build(["many_errors"])
+        for i in range(600):
+            big["components"]["schemas"][f"Bulk{i:03d}"] = features.obj({"v": {"type": "string"}, "n": {"type": "integer"}})
+        sample += [{"features": ["big600"], "spec": big, "layout": l, "strategy": "operationId"} for l in (({"depth": 2, "core": "embedded"}, {"depth": 3, "core": "sibling"}) if thorough else ({"depth": 2, "core": "embedded"},))]
         pp = loadpipe.generate_and_observe(chk, sample, nopp=False, label="pp", want=("compile", "import", "facts"))
         pp_traces = loadpipe.build_events(chk, [r for r in pp if r["gen"]["ok"]], {}, runtime=True, nopp=False)
     by_id = {t["id"]: t for t in traces + pp_traces}
